@@ -147,6 +147,45 @@ pub fn eval_c09(sc: &Scenario, h: &History, _signed: &Signeds, out: &mut Outcome
                 for it in items {
                     lb.extend_from_slice(v.span(it));
                 }
+                // ... and the redeemers in the *other* of the two container forms Conway allows (array of
+                // 4-tuples / map from pointer to payload), decoded by the library
+                let mut r = r.clone();
+                if let Some(rn) = reds {
+                    let whole = &b.bytes;
+                    let mut rb = vec![];
+                    match &rn.kind {
+                        Kind::Array(items) if items.iter().all(|x| x.as_array().map_or(false, |a| a.len() == 4)) => {
+                            cbor::w_map(&mut rb, items.len() as u64);
+                            for it in items {
+                                let a = it.as_array().unwrap();
+                                cbor::w_array(&mut rb, 2);
+                                rb.extend_from_slice(a[0].span(whole));
+                                rb.extend_from_slice(a[1].span(whole));
+                                cbor::w_array(&mut rb, 2);
+                                rb.extend_from_slice(a[2].span(whole));
+                                rb.extend_from_slice(a[3].span(whole));
+                            }
+                        }
+                        Kind::Map(entries) if entries.iter().all(|(k, x)| k.as_array().map_or(false, |a| a.len() == 2) && x.as_array().map_or(false, |a| a.len() == 2)) => {
+                            cbor::w_array(&mut rb, entries.len() as u64);
+                            for (k, x) in entries {
+                                let (ka, xa) = (k.as_array().unwrap(), x.as_array().unwrap());
+                                cbor::w_array(&mut rb, 4);
+                                rb.extend_from_slice(ka[0].span(whole));
+                                rb.extend_from_slice(ka[1].span(whole));
+                                rb.extend_from_slice(xa[0].span(whole));
+                                rb.extend_from_slice(xa[1].span(whole));
+                            }
+                        }
+                        _ => {}
+                    }
+                    if !rb.is_empty() && b.op % 3 != 0 {
+                        if let Ok(r2) = csl::Redeemers::from_bytes(rb) {
+                            out.count("c09.relayed_redeemers_in_other_container_form", 1);
+                            r = r2;
+                        }
+                    }
+                }
                 if let Ok(list) = csl::PlutusList::from_bytes(lb) {
                     let helper2 = csl::hash_script_data(&r, &exec::costmdls(bits), Some(list.clone())).to_bytes();
                     let mut ws2 = csl::TransactionWitnessSet::new();
